@@ -160,11 +160,59 @@ struct ParserCheck
         }
     }
 
+    // The parser object is first built with declaration `Dold` and parses `av_old`; then a freshly built parser with
+    // declaration `D` is move-assigned into the same object.  Parsing `av` must agree with the reference for (D, av).
+    void run_after_replace(const Decl& Dold, const std::vector<std::string>& av_old, const Decl& D,
+                           const std::vector<std::string>& av, mc::Report& rep, long idx) const
+    {
+        auto r = refparse(D, av, {});
+        nitro::options::parser p;
+        build(p, Dold);
+        run_on(p, Dold, av_old);
+        {
+            nitro::options::parser fresh;
+            build(fresh, D);
+            p = std::move(fresh);
+        }
+        auto i = run_on(p, D, av);
+        rep.count("executions", 2);
+        rep.count("parses_after_move_assignment");
+        for (auto& d : compare(r, i))
+        {
+            if (!judged(d.clause))
+                continue;
+            std::string w = mc::J()
+                                .s("decl", D.str())
+                                .raw("declaration", decl_json(D))
+                                .raw("previous_declaration", decl_json(Dold))
+                                .l("previous_argv", av_old)
+                                .l("argv", av)
+                                .raw("env", "{}")
+                                .str();
+            rep.violation("after-move-assignment:" + d.clause, id + ":after-move-assignment:" + d.clause + ":" + class_seq(D, av), w,
+                          "parser object first declared as {" + Dold.str() + "} and used for " + mc::jlist(av_old) + ", then a parser {" + D.str() +
+                              "} was move-assigned into it; parse(" + mc::jlist(av) + "): " + d.detail,
+                          idx);
+        }
+    }
+
     int replay(const std::string& path) const
     {
         {
             auto doc = js::load(path);
             const js::Value& w = doc.has("witness") ? doc.at("witness") : doc;
+            if (w.has("previous_declaration"))
+            {
+                Decl D = decl_from(w.at("declaration")), Dold = decl_from(w.at("previous_declaration"));
+                mc::Report rep;
+                run_after_replace(Dold, w.strings("previous_argv"), D, w.strings("argv"), rep, 0);
+                printf("replay %s (parser object re-used through move assignment)\n", id.c_str());
+                for (auto& v : rep.violations)
+                    printf("  FAILED clause: %s\n    %s\n", v.second.clause.c_str(), v.second.detail.c_str());
+                if (rep.violations.empty())
+                    printf("  the parse agrees with the reference\n");
+                return rep.violations.empty() ? 0 : 1;
+            }
             if (w.has("first_argv"))
             {
                 Decl D = decl_from(w.at("declaration"));
